@@ -259,4 +259,35 @@ def mkMap (m : Mode) (ps : List (V × V)) : V :=
   | .btree => .map (ps.foldl (fun acc p => insertB p.1 p.2 acc) [])
   | .index => .map (ps.foldl (fun acc p => insertI p.1 p.2 acc) [])
 
+/-! ## the lookup entry points of a `ValueMap` (`impl_value_map!` in `value/object.rs`) -/
+
+/-- `Object::get_value` on a `BTreeMap<Value, _>`: the entry whose key compares `Equal` -/
+def getB (k : V) : List (V × V) → Option V
+  | [] => Option.none
+  | (k', v') :: ps => if cmpV k k' = .eq then some v' else getB k ps
+
+/-- `Object::get_value` on an `IndexMap<Value, _>`: same hash and `==` (a one-entry map skips the hash) -/
+def getI (single : Bool) (k : V) : List (V × V) → Option V
+  | [] => Option.none
+  | (k', v') :: ps =>
+    if (single || hkey k == hkey k') && eqV .index k k' then some v' else getI single k ps
+
+/-- `Object::get_value(&key)` — what `m[key]`, `Value::get_item`, `key in m` use -/
+def getV (m : Mode) (ps : List (V × V)) (k : V) : Option V :=
+  match m with
+  | .btree => getB k ps
+  | .index => getI (decide (ps.length = 1)) k ps
+
+/-- the linear scan of the small-map fast path: the first *string* key with that text -/
+def scanStr (s : List Nat) : List (V × V) → Option V
+  | [] => Option.none
+  | (.str t, v') :: ps => if t = s then some v' else scanStr s ps
+  | _ :: ps => scanStr s ps
+
+/-- `Object::get_value_by_str(key)` — what `m.key`, `Value::get_attr`, context variable resolution
+    and every `attribute=` filter use: a linear scan for maps of at most 12 entries, otherwise
+    `self.get(&Value::from(key))` -/
+def getByStr (m : Mode) (ps : List (V × V)) (s : List Nat) : Option V :=
+  if ps.length ≤ 12 then scanStr s ps else getV m ps (.str s)
+
 end MJ.Cmp
